@@ -1,4 +1,4 @@
-import FinamModel.GridLemmas
+import FinamModel.CellLemmas
 /-!
   C14 — grid index-to-coordinate mapping is consistent for every layout.
 
@@ -47,6 +47,175 @@ theorem point_at_index (g : SGrid) (hne : ∀ ax ∈ g.axes, ax ≠ []) (i : Lis
 def exEsri : SGrid := ⟨[[0, 1, 2, 3], [0, 2, 4]], [true, false], true, .C, .cells, none⟩
 example : InB exEsri.dataShape [1, 2] ∧ exEsri.coordAt [1, 2] = [5/2, 1] ∧
     exEsri.dataPoints[ravel exEsri.order exEsri.dataShape [1, 2]]? = some [5/2, 1] := by decide +kernel
+
+/-! ### Cells, cell centres, unstructured cast -/
+
+theorem dims_pos (g : SGrid) (hne : ∀ ax ∈ g.axes, ax ≠ []) : ∀ d ∈ g.dims, 1 ≤ d := by
+  intro d hd
+  simp only [SGrid.dims, List.mem_map] at hd
+  obtain ⟨ax, hax, rfl⟩ := hd
+  exact List.length_pos_iff.mpr (hne ax hax)
+
+theorem meshDim_eq (g : SGrid) : g.meshDim = (squeeze g.dims).length := rfl
+
+theorem cellCount_eq (g : SGrid) (hne : ∀ ax ∈ g.axes, ax ≠ []) :
+    g.cellCount = prod ((squeeze g.dims).map (· - 1)) := by
+  unfold SGrid.cellCount
+  rw [← expandSh_cdim g.dims (dims_pos g hne), prod_expandSh _ _ (by simp)]
+
+/-- every row of the cell table, located by the multi-index of its cell -/
+theorem cells_row (g : SGrid) (hne : ∀ ax ∈ g.axes, ax ≠ []) (hm : g.meshDim ≤ 3) (j : Nat)
+    (hj : j < g.cellCount) :
+    let po := pointOrder g.order g.rev
+    let ci := unravel po ((squeeze g.dims).map (· - 1)) j
+    InB ((squeeze g.dims).map (· - 1)) ci ∧
+    g.cells[j]? = some ((corners g.meshDim).map fun δ => ravel po g.dims (expand g.dims (addIdx ci δ))) := by
+  intro po ci
+  rw [cellCount_eq g hne] at hj
+  have hci : InB ((squeeze g.dims).map (· - 1)) ci := unravel_inB po _ j hj
+  refine ⟨hci, ?_⟩
+  have := genCells_spec g.dims po (dims_pos g hne) hm ci hci
+  rw [ravel_unravel po _ j hj] at this
+  exact this
+
+/-- **C14: every cell references existing points.** The cell table has one row per cell, every
+    row has `2 ^ mesh_dim` nodes, and every node id is below the number of points — for every
+    combination of axis lengths (degenerate axes included), order and axes_reversed. -/
+theorem cells_reference_points (g : SGrid) (hne : ∀ ax ∈ g.axes, ax ≠ []) (hm : g.meshDim ≤ 3) :
+    g.cells.length = g.cellCount ∧
+    ∀ row ∈ g.cells, row.length = 2 ^ g.meshDim ∧ ∀ p ∈ row, p < g.pointCount := by
+  have hlen : g.cells.length = g.cellCount := by
+    rw [cellCount_eq g hne]; exact genCells_length g.dims _ hm
+  refine ⟨hlen, ?_⟩
+  intro row hrow
+  obtain ⟨j, hj, hjrow⟩ := List.mem_iff_getElem.mp hrow
+  rw [hlen] at hj
+  obtain ⟨hci, hspec⟩ := cells_row g hne hm j hj
+  have hget := List.getElem?_eq_getElem (l := g.cells) (by rw [hlen]; exact hj)
+  rw [hspec, hjrow] at hget
+  have hrow_eq := (Option.some.inj hget).symm
+  rw [hrow_eq]
+  refine ⟨by simp [corners_length _ hm], ?_⟩
+  intro p hp
+  simp only [List.mem_map] at hp
+  obtain ⟨δ, hδ, rfl⟩ := hp
+  have hin := InB_expand_dims g.dims _ (dims_pos g hne) (corner_inB g.dims _ δ hm hci hδ)
+  exact ravel_lt _ _ _ hin
+
+/-- **C14: cell centres equal the mean of the cell's nodes.** For every cell `j` the `j`-th entry
+    of `cell_centers` (generated from the cell-centre axes) is the componentwise mean of the points
+    the `j`-th row of `cells` refers to — for every layout, on increasing and decreasing axes,
+    including the C-order remapping of point ids and rows in three dimensions. -/
+theorem centre_is_mean_of_nodes (g : SGrid) (hne : ∀ ax ∈ g.axes, ax ≠ []) (hm : g.meshDim ≤ 3)
+    (j : Nat) (hj : j < g.cellCount) :
+    g.cellCenters[j]? = some (meanPts g.dim ((g.cells.getD j []).map fun p => g.points.getD p [])) := by
+  obtain ⟨hci, hspec⟩ := cells_row g hne hm j hj
+  have hd := dims_pos g hne
+  rw [cellCount_eq g hne] at hj
+  rw [List.getD_eq_getElem?_getD, hspec]
+  simp only [Option.getD_some, List.map_map]
+  -- the points the row refers to
+  have hpts : ∀ δ ∈ corners g.meshDim,
+      g.points.getD (ravel (pointOrder g.order g.rev) g.dims
+        (expand g.dims (addIdx (unravel (pointOrder g.order g.rev) ((squeeze g.dims).map (· - 1)) j) δ))) [] =
+      SGrid.pick (SGrid.dirAxes g.axes g.inc)
+        (expand g.dims (addIdx (unravel (pointOrder g.order g.rev) ((squeeze g.dims).map (· - 1)) j) δ)) := by
+    intro δ hδ
+    have hin := InB_expand_dims g.dims _ hd (corner_inB g.dims _ δ hm hci hδ)
+    have := SGrid.genPoints_at g.axes (pointOrder g.order g.rev) g.inc _ hin
+    rw [List.getD_eq_getElem?_getD]
+    unfold SGrid.points
+    simp only [SGrid.dims] at this ⊢
+    rw [this]; rfl
+  rw [List.map_congr_left (fun δ hδ => by simpa [Function.comp_def] using hpts δ hδ)]
+  have hmean := SGrid.mean_of_corners g.axes g.inc hne hm _ hci
+  simp only [SGrid.dim, meshDim_eq, SGrid.dims] at hmean ⊢
+  rw [hmean]
+  -- the centre generated from the cell axes
+  have hcl : ((squeeze g.dims).map (· - 1)).length = (squeeze g.dims).length := by simp
+  have hsh : g.cellAxes.map List.length = expandSh g.dims ((squeeze g.dims).map (· - 1)) := by
+    rw [expandSh_cdim g.dims hd, SGrid.cellAxes_map_length g hne]
+  have hin : InB (g.cellAxes.map List.length) (expand g.dims
+      (unravel (pointOrder g.order g.rev) ((squeeze g.dims).map (· - 1)) j)) := by
+    rw [hsh]; exact InB_expand _ _ _ hcl hci
+  have hat := SGrid.genPoints_at g.cellAxes (pointOrder g.order g.rev) g.inc _ hin
+  rw [hsh, ravel_expand _ _ _ _ hcl hci.length_eq, ravel_unravel _ _ j hj] at hat
+  unfold SGrid.cellCenters
+  simp only [SGrid.dims, SGrid.cellAxes] at hat ⊢
+  exact hat
+
+theorem nodeCount_eq (m : Nat) (hm : m ≤ 3) : nodeCountOfMeshDim m = 2 ^ m := by
+  match m, hm with
+  | 0, _ => rfl
+  | 1, _ => rfl
+  | 2, _ => rfl
+  | 3, _ => rfl
+
+theorem cellCenters_length (g : SGrid) (hne : ∀ ax ∈ g.axes, ax ≠ []) : g.cellCenters.length = g.cellCount := by
+  unfold SGrid.cellCenters SGrid.cellCount
+  rw [SGrid.genPoints_length, SGrid.cellAxes_map_length g hne]
+
+/-- the node-centre computation of the unstructured cast reproduces the structured cell centres -/
+theorem cast_cellCenters (g : SGrid) (hne : ∀ ax ∈ g.axes, ax ≠ []) (hm : g.meshDim ≤ 3) :
+    g.toUnstructured.cellCenters = g.cellCenters := by
+  obtain ⟨hlen, hrows⟩ := cells_reference_points g hne hm
+  apply List.ext_getElem?
+  intro j
+  by_cases hj : j < g.cellCount
+  · rw [centre_is_mean_of_nodes g hne hm j hj]
+    simp only [UGrid.cellCenters, SGrid.toUnstructured, List.getElem?_map]
+    have hjl : j < g.cells.length := by rw [hlen]; exact hj
+    rw [List.getElem?_eq_getElem hjl]
+    simp only [Option.map_some, List.getD_eq_getElem?_getD, List.getElem?_eq_getElem hjl, Option.getD_some]
+    have hrl := (hrows _ (List.getElem_mem hjl)).1
+    rw [nodeCount_eq _ hm, List.take_of_length_le (by omega)]
+  · have h1 : g.toUnstructured.cellCenters.length = g.cellCount := by
+      simp [UGrid.cellCenters, SGrid.toUnstructured, hlen]
+    rw [List.getElem?_eq_none (by omega), List.getElem?_eq_none (by rw [cellCenters_length g hne]; omega)]
+
+/-- **C14: casting to an unstructured grid preserves all of this.** The cast keeps points, cells,
+    location and order; its data points are the structured grid's data points (the centres being
+    recomputed as means of the cells' nodes); its data shape is the flat size; and so the element at
+    multi-index `i` of structured data, flattened in the grid's order, sits at the unstructured data
+    point with the coordinate given by the data axes. -/
+theorem unstructured_cast_preserves (g : SGrid) (hne : ∀ ax ∈ g.axes, ax ≠ []) (hm : g.meshDim ≤ 3) :
+    g.toUnstructured.points = g.points ∧ g.toUnstructured.cells = g.cells ∧
+    g.toUnstructured.loc = g.loc ∧ g.toUnstructured.order = g.order ∧
+    g.toUnstructured.dataPoints = g.dataPoints ∧
+    g.toUnstructured.dataShape = [g.dataSize] ∧ g.toUnstructured.dataSize = g.dataSize ∧
+    (∀ row ∈ g.toUnstructured.cells, ∀ p ∈ row, p < g.toUnstructured.points.length) ∧
+    ∀ i, InB g.dataShape i →
+      g.toUnstructured.dataPoints[ravel g.order g.dataShape i]? = some (g.coordAt i) := by
+  have hcc := cast_cellCenters g hne hm
+  obtain ⟨hlen, hrows⟩ := cells_reference_points g hne hm
+  have hdp : g.toUnstructured.dataPoints = g.dataPoints := by
+    unfold UGrid.dataPoints SGrid.dataPoints
+    rw [hcc]; rfl
+  have hpl : g.points.length = g.pointCount := by
+    unfold SGrid.points SGrid.pointCount SGrid.dims; exact SGrid.genPoints_length _ _ _
+  have hsize : g.dataSize = if g.loc = .points then g.points.length else g.cells.length := by
+    rw [hpl, hlen]
+    unfold SGrid.dataSize SGrid.dataShape SGrid.shapeFor SGrid.pointCount SGrid.cellCount
+    cases g.rev <;> cases g.loc <;> simp [prod_reverse, List.map_reverse]
+  refine ⟨rfl, rfl, rfl, rfl, hdp, ?_, ?_, ?_, ?_⟩
+  · rw [hsize]; simp only [UGrid.dataShape, SGrid.toUnstructured]
+    by_cases h : g.loc = .points <;> simp [h]
+  · rw [hsize]; simp only [UGrid.dataSize, SGrid.toUnstructured]; rfl
+  · intro row hrow p hp
+    have := (hrows row hrow).2 p hp
+    simp only [SGrid.toUnstructured]
+    rw [hpl]; exact this
+  · intro i hi
+    rw [hdp]; exact point_at_index g hne i hi
+
+/-- non-vacuity: a 3-D grid in C order with a decreasing axis — cell 1's row, its centre and the mean
+    of its nodes -/
+def exHex : SGrid := ⟨[[0, 1, 2], [0, 2, 4, 6], [0, 3]], [true, false, true], false, .C, .cells, none⟩
+example : exHex.meshDim = 3 ∧ exHex.cellCount = 6 ∧
+    exHex.cells.getD 1 [] = [5, 13, 11, 3, 4, 12, 10, 2] ∧
+    exHex.cellCenters[1]? = some [1/2, 3, 3/2] ∧
+    meanPts 3 ((exHex.cells.getD 1 []).map fun p => exHex.points.getD p []) = [1/2, 3, 3/2] := by
+  decide +kernel
 
 /-! ### Shape, size and points always reflect the current data location -/
 
